@@ -509,11 +509,43 @@ func maxLen() int {
 	return MaxLenQuick
 }
 
+// NumLeaves collects the numeric leaves AnyVal created on this path.
+var NumLeaves []float64
+
+// NumPool, when set, makes AnyVal pick numbers from a concrete pool (used
+// where the structure, not the number, is what is quantified).
+var NumPool []float64
+
+// ConcreteTimes makes AnyVal pick instants from a small concrete set.
+var ConcreteTimes bool
+
+// AssumeSeparated: numeric leaves are finite, below 2^53 in magnitude unless
+// wide is set, and pairwise bit-identical or more than 1e-9 apart (the
+// precondition of C18).
+func AssumeSeparated(xs []float64, wide bool) {
+	for i, x := range xs {
+		if wide {
+			sv.Assume(sv.And(x == x, x-x == 0))
+		} else {
+			sv.Assume(sv.And(x == x, x > -9007199254740992, x < 9007199254740992))
+		}
+		for j := 0; j < i; j++ {
+			y := xs[j]
+			sv.Assume(sv.Or(sv.Same(x, y), x-y > 1e-9, y-x > 1e-9))
+		}
+	}
+}
+
 // AnyVal builds an arbitrary well-formed value whose type is exactly t.
 func AnyVal(t *types.Type, name string) *val.Val {
 	switch t.Kind {
 	case types.KNum:
-		return val.Num(sv.Float64(name))
+		if NumPool != nil {
+			return val.Num(NumPool[sv.Choice(name+".num", len(NumPool))])
+		}
+		x := sv.Float64(name)
+		NumLeaves = append(NumLeaves, x)
+		return val.Num(x)
 	case types.KBool:
 		// one value object per truth value, as val.Bool does, without forking
 		if sv.Bool(name) {
@@ -523,6 +555,10 @@ func AnyVal(t *types.Type, name string) *val.Val {
 	case types.KStr:
 		return val.Str(AnyStr(name))
 	case types.KTime:
+		if ConcreteTimes {
+			secs := [...]int64{0, 1700000000, -1}
+			return val.Time(time.Unix(secs[sv.Choice(name+".time", len(secs))], 0))
+		}
 		s := sv.Int64(name)
 		sv.Assume(s > -60000000000 && s < 250000000000)
 		return val.Time(time.Unix(s, 0))
